@@ -89,9 +89,11 @@ func (s *Sys) defaultExp() int64 {
 const (
 	durEX     = 2 * time.Second
 	durPX     = 1500 * time.Millisecond
-	durExpire = 3 * time.Second
+	// deliberately not whole seconds: Expire and Lease travel as (fractional) seconds on some
+	// wire paths and as milliseconds on others
+	durExpire = 2500 * time.Millisecond
 	durLock   = 1500 * time.Millisecond
-	durLease  = 3 * time.Second
+	durLease  = 2500 * time.Millisecond
 )
 
 var putValues = map[string]string{"": "10", "NX": "20", "XX": "30", "EX": "40", "PX": "50", "EXAT": "60", "PXAT": "70", "NX+PX": "80", "XX+EX": "90", "NX+EXAT": "100", "XX+PXAT": "110"}
@@ -395,10 +397,17 @@ func (s *Sys) applyUntracked(e Ev, key string) []Fail {
 		s.KV.Put(key, []byte(putValues[e.S]), o)
 	case "get":
 		s.KV.Get(key)
-	case "del", "getput":
+	case "del":
 		s.Untracked[key] = false
 		delete(s.Ref, key)
 		return s.Apply(e)
+	case "getput":
+		// the old value it returns is outside the model; the new state is defined again
+		val := []byte("120")
+		if r := s.KV.GetPut(key, val); r.Err == "" {
+			s.Untracked[key] = false
+			s.Ref[key] = &RefEntry{Val: val, Exp: s.defaultExp()}
+		}
 	case "expire":
 		s.KV.Expire(key, durExpire)
 	case "incr":
